@@ -139,3 +139,22 @@ def replay(graph: Graph, init_key: str, make_impl, *, budget: int | None, rng: r
             if cs != k:
                 dirty = True
     return stats
+
+
+def rerun(rep: dict, make_impl) -> int:
+    """Re-execute a recorded graph-replay mismatch (path, op, expected outcomes) on a fresh implementation instance.
+    -> 0 if the implementation now produces one of the specified outcomes, 1 otherwise."""
+    impl = make_impl()
+    for op in rep.get("path", []):
+        impl.apply(op)
+    if "op" not in rep:
+        got, want = canon(impl.project()), canon(rep.get("expected_state"))
+        print(f"replay: state after the path {'matches' if got == want else 'DIFFERS from'} the specified state")
+        return 0 if got == want else 1
+    ret = impl.apply(rep["op"])
+    st = impl.project()
+    cr, cs = canon(ret), canon(st)
+    ok = any(canon(o["ret"]) == cr and canon(o["st"]) == cs for o in rep["expected"])
+    print(f"replay: op {canon(rep['op'])}\n  observed ret={cr}\n  observed st={cs}\n  specified outcomes={canon(rep['expected'])[:1500]}")
+    print("replay: " + ("one of the specified outcomes" if ok else "NOT a specified outcome"))
+    return 0 if ok else 1
